@@ -189,6 +189,10 @@ class ARM64(Isa):
             return self._w(0x94000000), (0, 4, ins[1])
         if k == "ret":
             return self._w(0xD65F03C0), None
+        if k == "adrp":  # adrp x9, L(+addend)
+            return self._w(0x90000009), (0, 4, ins[1], ins[2] if len(ins) > 2 else 0, ())
+        if k == "addlo12":  # add x9, x9, :lo12:L(+addend)
+            return self._w(0x91000129), (0, 4, ins[1], ins[2] if len(ins) > 2 else 0, ("LO12",))
         if k == "ijmp":
             return self._w(0xD61F0000), None  # br x0
         if k == "icall":
@@ -215,6 +219,10 @@ class ARM64(Isa):
             return "bl %s" % ins[1]
         if k == "ret":
             return "ret"
+        if k == "adrp":
+            return "adrp x9, %s%s" % (ins[1], ("%+d" % ins[2]) if len(ins) > 2 and ins[2] else "")
+        if k == "addlo12":
+            return "add x9, x9, :lo12:%s%s" % (ins[1], ("%+d" % ins[2]) if len(ins) > 2 and ins[2] else "")
         if k == "ijmp":
             return "br x0"
         if k == "icall":
@@ -231,6 +239,9 @@ class ARM64(Isa):
         "o": "mov", "p": "mov", "jmp": "b", "jcc": "b.eq", "call": "bl", "ret": "ret",
         "ijmp": "br", "icall": "blr", "nop": "nop",
     }
+
+    def falls(self, ins):
+        return ins[0] in ("adrp", "addlo12") or Isa.falls(self, ins)
 
 
 class MIPS32(Isa):
